@@ -90,7 +90,8 @@ def write_replay(pid, v):
     h = replay_hash(v)
     path = os.path.join(d, f"{h}.json")
     doc = {"property": pid, "key": v["key"], "message": v["msg"], "family": v["family"],
-           "cfg": jsonable(v["cfg"]), "entry": v["entry"], "choices": v["choices"],
+           "cfg": jsonable(v["cfg"]), "entry": v["entry"], "extra": jsonable(v.get("extra", {})),
+           "choices": v["choices"],
            "labels": jsonable(v["labels"]), "trace": v["trace"]}
     with open(path, "w") as f:
         json.dump(doc, f, indent=1)
